@@ -101,6 +101,7 @@ def c02(tier):
         mc_replay(c, model, cfg, "long structured references composed from component vocabularies (section 3 side conditions)")
     drive_parse_and_validate(c, tier, "random long multi-byte references, and a length sweep (each component in turn 0..140, ~256, ~512, "
                                       "~1024, ~4096 characters long): components reported by the real accessors judged by TLC", sweep=True)
+    big_and_validate(c, {"slashes"})
     return c.finish(rule="all valid (I)RI-references of bounded length over a delimiter-rich alphabet, enumerated by "
                          "walking the derivative automaton; each distinct text is one case",
                     assumptions=TRUST)
@@ -135,6 +136,8 @@ def c20(tier):
     for model, cfg in cfgs("mc/MC_SegIter", tier, [""]):
         mc_replay(c, model, cfg, "double-ended segment iteration allocates nothing")
     big_and_validate(c, {"big_path", "big_ref"})
+    for model, cfg in cfgs("mc/MC_DataUrl", tier, [""]):
+        mc_replay(c, model, cfg, "data URLs: the borrowed constructor, TryFrom, borrowed deserialisation and the accessors allocate nothing")
     return c.finish(rule="every enumerated valid text: allocation delta of parse+accessors must be 0 and every "
                          "returned slice must sit at the byte range computed by spec/Ranges.tla",
                     assumptions=TRUST + ["counting #[global_allocator] in the harness (thread-local counter)"])
@@ -257,6 +260,11 @@ def charge_parse(ev, why):
 def drive_parse_and_validate(c, tier, label, kinds=("parse", "parse_bytes"), sweep=False):
     n = 6000 if tier == "quick" else 150000
     ev = vlib.run_drive_parse("%s-%s" % (c.pid, tier), n)
+    crash = vlib.LAST_DRIVE_CRASH.get(ev)
+    if crash is not None:
+        props = charge_parse(crash, "panic")
+        if c.pid in props:
+            c.judge(crash, [{"props": props, "what": "process_abort", "panic": crash.get("msg", "")}])
     k, bad, tr = vlib.run_trace(ev, name="%s-parse-%s" % (c.pid, tier),
                                 select=lambda e: (e.get("ev") in kinds and (sweep or e.get("src") != "sweep")) or (sweep and e.get("ev") == "sweep_big"))
     c.add_trace(k, bad, tr, label, charge=charge_parse)
@@ -314,7 +322,7 @@ def c04(tier):
     drive_and_validate(c, tier)
     sessions_and_validate(c, tier, None)
     suite_and_validate(c, set(EDIT_PROP))
-    big_and_validate(c, {"big_path", "big_pct", "big_resolve"})
+    big_and_validate(c, {"big_path", "big_pct", "big_resolve", "big_edit"})
     return c.finish(rule="editor state graph: nodes = texts reachable within the length bound from 5 initial buffers, "
                          "edges = every mutator with every vocabulary argument; plus handle behaviours",
                     assumptions=EDIT_TRUST)
@@ -326,6 +334,7 @@ def c05(tier):
         mc_replay(c, model, cfg, "setter edges: expected text fixed by the specification (R1-R3 mandatory exactly when needed)")
     drive_and_validate(c, tier, ops={"set_scheme", "set_authority", "set_path", "set_query", "set_fragment"})
     suite_and_validate(c, {"set_scheme", "set_authority", "set_path", "set_query", "set_fragment"})
+    big_and_validate(c, {"big_edit"})
     return c.finish(rule="the five setters with every vocabulary argument from every reachable text",
                     assumptions=EDIT_TRUST)
 
